@@ -61,16 +61,28 @@ func gKeyPath(p string) string {
 }
 
 type gProg struct {
-	Server  string    `json:"server"` // os | rs
-	Alloc   bool      `json:"alloc"`
-	MaxTx   uint32    `json:"max_tx,omitempty"`
+	Server string `json:"server"` // os | rs
+	Alloc  bool   `json:"alloc"`
+	MaxTx  uint32 `json:"max_tx,omitempty"`
+	// ReadOnly: os-backed server started with ReadOnly() (handles must then be of kind get / dir).
+	ReadOnly bool `json:"read_only,omitempty"`
+	// WorkDir: os-backed server started with WithServerWorkingDirectory(scratch root), request server with
+	// WithStartDirectory("/wd"); the handles of the program are then opened by names relative to that directory.
+	WorkDir bool      `json:"work_dir,omitempty"`
 	Handles []gHandle `json:"handles"`
 	Ops     []gOp     `json:"ops"`
 }
 
 func (p gProg) text() string {
 	var b strings.Builder
-	fmt.Fprintf(&b, "%s alloc=%v maxtx=%d |", p.Server, p.Alloc, p.MaxTx)
+	fmt.Fprintf(&b, "%s alloc=%v maxtx=%d", p.Server, p.Alloc, p.MaxTx)
+	if p.ReadOnly {
+		b.WriteString(" readonly")
+	}
+	if p.WorkDir {
+		b.WriteString(" workdir")
+	}
+	b.WriteString(" |")
 	for _, h := range p.Handles {
 		fmt.Fprintf(&b, " %s=%s:%s", h.Name, h.Kind, h.Path)
 		if h.Closed {
